@@ -173,6 +173,40 @@ fn h_wait_add() -> impl Fn() + Send + Sync + 'static {
   }
 }
 
+/// Several senders are parked waiting for a first peer; one peer is added: every one of them must
+/// proceed (the peer has room for all their messages).
+fn h_multi_wait_add(waiters: usize) -> impl Fn() + Send + Sync + 'static {
+  move || {
+    let o = Arc::new(Orchestrator::new());
+    let ends = sca_conn(8, None, 1);
+    let mut hs = vec![];
+    for w in 0..waiters {
+      let o2 = o.clone();
+      hs.push(spawn(async move {
+        e2::at(&format!("waiter{}:route_message(wait_for_peer)", w));
+        o2.route_message(one(w as u8), true).await.is_ok()
+      }));
+    }
+    let (o3, conn) = (o.clone(), ends.conn.clone());
+    let adder = spawn(async move {
+      o3.add("p1", &conn);
+    });
+    block_on(adder).unwrap();
+    for h in hs {
+      let ok = block_on(h).unwrap();
+      e2::check(ok, "send-failed-after-peer-added", "multi-wait", || "a waiting sender failed".into());
+    }
+    let mut got = vec![];
+    while let Ok(m) = ends.pipe_rx.try_recv() {
+      got.push(m[0].data().unwrap()[0]);
+    }
+    got.sort_unstable();
+    e2::check(got == (0..waiters as u8).collect::<Vec<_>>(), "message-not-delivered", "multi-wait", || format!("pipe holds {:?}", got));
+    e2::nontrivial();
+    e2::outcome(mc_core::digest(&got));
+  }
+}
+
 /// wait_for_connection racing deactivate: the waiter must return an error (not hang).
 fn h_wait_deactivate() -> impl Fn() + Send + Sync + 'static {
   || {
@@ -311,6 +345,8 @@ pub fn harnesses(tier: Tier) -> Vec<Harness> {
   vec![
     Harness::new("wait-vs-add", cfg.clone(), h_wait_add()),
     Harness::new("wait-vs-deactivate", cfg.clone(), h_wait_deactivate()),
+    Harness::new("2waiters-vs-add", cfg.clone(), h_multi_wait_add(2)),
+    Harness::new("3waiters-vs-add", E2Cfg { max_preemptions: cfg.max_preemptions.saturating_sub(1).max(1), ..cfg.clone() }, h_multi_wait_add(3)),
     Harness::new("skip-full-2msgs", cfg.clone(), h_skip_full(2)),
     Harness::new("skip-full-3msgs", cfg.clone(), h_skip_full(3)),
     Harness::new("all-full-a-drains", cfg.clone(), h_all_full_one_drains(true)),
